@@ -34,7 +34,7 @@ Definition model_out (k : mcase) : list Z :=
   | KFramesHostile i ok _ => match dec_frames_len i with
                              | Some fs => if ok then 1%Z :: Z.of_nat (List.length fs) :: map (fun f => Z.of_N (fst f)) fs else [0%Z]
                              | None => [0%Z] end
-  | KJTypeRead s _ => [Z.of_N (type_from_json all_reg f_cav_unregistered s)]
+  | KJTypeRead s _ => [Z.of_N (type_from_json_al all_reg json_aliases f_cav_unregistered s)]
   | KJTypePrint t _ => zs (str_bytes (type_to_json all_reg f_cav_min_user_defined t))
   end.
 
